@@ -108,6 +108,8 @@ variable {σ σ' V : Type}
 
 /-- `I'` (on the richer state σ') behaves like `I` when viewed through `π`. -/
 structure Sim (I' : Interp σ' V) (I : Interp σ V) (π : σ' → σ) : Prop where
+  lags : I'.lags = I.lags
+  leads : I'.leads = I.leads
   check : ∀ u t, I'.check u t = I.check (π u) t
   allFinite : I'.allFinite = I.allFinite
   close : I'.close = I.close
@@ -170,29 +172,32 @@ theorem solveT_sim {I' : Interp σ' V} {I : Interp σ V} {π : σ' → σ} (h : 
     (o : Opts) (n : Nat) (t : Int) (w : World σ') :
     ((solveT I' o n t w).1.map π, (solveT I' o n t w).2) = solveT I o n t (w.map π) := by
   unfold solveT
+  rw [h.lags, h.leads]
   split
   · rfl
   · split
     · rfl
     · split
       · rfl
-      · have hseed : π (seed I' o t w.user) = seed I o t (w.map π).user := by
-          unfold seed; split
-          · exact h.copyOffset _ _ _
-          · rfl
-        unfold solveCore
-        rw [← hseed, ← h.check, ← h.allFinite]
-        split
-        · simp only [withUser_map]
-        · have hb := h.before o (seed I' o t w.user) t
-          rw [← hb]
-          rcases hbv : I'.before o (seed I' o t w.user) t with ⟨u2, b⟩
-          cases b with
-          | true => simp only [withUser_map]
-          | false =>
-            simp only
-            rw [← loop_sim h]
-            exact finish_sim π o n t w _
+      · split
+        · rfl
+        · have hseed : π (seed I' o t w.user) = seed I o t (w.map π).user := by
+            unfold seed; split
+            · exact h.copyOffset _ _ _
+            · rfl
+          unfold solveCore
+          rw [← hseed, ← h.check, ← h.allFinite]
+          split
+          · simp only [withUser_map]
+          · have hb := h.before o (seed I' o t w.user) t
+            rw [← hb]
+            rcases hbv : I'.before o (seed I' o t w.user) t with ⟨u2, b⟩
+            cases b with
+            | true => simp only [withUser_map]
+            | false =>
+              simp only
+              rw [← loop_sim h]
+              exact finish_sim π o n t w _
 
 end Simulation
 end Fsic
@@ -202,6 +207,8 @@ section Logged
 variable {σ V : Type} (I : Interp σ V) (o : Opts) (t : Int)
 
 theorem logged_sim : Sim (logged I) I Prod.fst where
+  lags := rfl
+  leads := rfl
   check _ _ := rfl
   allFinite := rfl
   close := rfl
@@ -366,21 +373,27 @@ namespace Fsic
 section Accepted
 variable {σ V : Type} (I : Interp σ V) (o : Opts) (n : Nat) (t : Int) (w : World σ)
 
-/-- Accepted call: `min_iter ≤ max_iter` and the offset test passes (or `offset = 0`). -/
-def Accepted : Prop :=
-  ¬ o.minIter > o.maxIter ∧ (o.offset = 0 ∨ (0 ≤ normT n t + o.offset ∧ normT n t + o.offset < n))
+/-- The period has room for the model's lags and leads. -/
+def Feasible : Prop := 0 ≤ normT n t - I.lags ∧ normT n t + I.leads < n
 
-theorem solveT_accepted (h : Accepted o n t) :
+/-- Accepted call: `min_iter ≤ max_iter`, a feasible period, and the offset test passes (or `offset = 0`). -/
+def Accepted : Prop :=
+  ¬ o.minIter > o.maxIter ∧ Feasible I n t ∧
+    (o.offset = 0 ∨ (0 ≤ normT n t + o.offset ∧ normT n t + o.offset < n))
+
+theorem solveT_accepted (h : Accepted I o n t) :
     solveT I o n t w = solveCore I o n t w (seed I o t w.user) := by
-  obtain ⟨h0, h1 | ⟨h2, h3⟩⟩ := h
-  · simp [solveT, h0, h1]
-  · have h2' : ¬ normT n t + o.offset < 0 := by omega
+  obtain ⟨h0, ⟨hf1, hf2⟩, h1 | ⟨h2, h3⟩⟩ := h
+  · have hf : ¬ (normT n t - ↑I.lags < 0 ∨ normT n t + ↑I.leads ≥ ↑n) := by omega
+    simp [solveT, h0, hf, h1]
+  · have hf : ¬ (normT n t - ↑I.lags < 0 ∨ normT n t + ↑I.leads ≥ ↑n) := by omega
+    have h2' : ¬ normT n t + o.offset < 0 := by omega
     have h3' : ¬ normT n t + o.offset ≥ n := by omega
-    simp [solveT, h0, h2', h3']
+    simp [solveT, h0, hf, h2', h3']
 
 /-- An accepted call whose starting check values pass the up-front test and whose pre-hook does not raise
     is the iteration loop followed by the bookkeeping. -/
-theorem solveT_eq_finish (hacc : Accepted o n t)
+theorem solveT_eq_finish (hacc : Accepted I o n t)
     (hpre : ¬ (o.errors = .raise ∧ I.allFinite (I.check (seed I o t w.user) t) = false))
     (hb : (I.before o (seed I o t w.user) t).2 = false) :
     solveT I o n t w =
@@ -470,22 +483,24 @@ theorem solveT_inv (h : Preserved I o t P) (n : Nat) (w : World σ) (hw : P w.us
     · exact hw
     · split
       · exact hw
-      · have hs : P (seed I o t w.user) := by
-          unfold seed; split
-          · exact h.copyOffset _ _ hw
-          · exact hw
-        unfold solveCore
-        split
-        · exact hs
-        · have hb := h.before _ hs
-          rcases hbv : I.before o (seed I o t w.user) t with ⟨u2, b⟩
-          rw [hbv] at hb
-          cases b with
-          | true => exact hb
-          | false =>
-            simp only
-            rw [finish_user]
-            exact loop_inv I o t P h _ _ _ _ hb
+      · split
+        · exact hw
+        · have hs : P (seed I o t w.user) := by
+            unfold seed; split
+            · exact h.copyOffset _ _ hw
+            · exact hw
+          unfold solveCore
+          split
+          · exact hs
+          · have hb := h.before _ hs
+            rcases hbv : I.before o (seed I o t w.user) t with ⟨u2, b⟩
+            rw [hbv] at hb
+            cases b with
+            | true => exact hb
+            | false =>
+              simp only
+              rw [finish_user]
+              exact loop_inv I o t P h _ _ _ _ hb
 
 end Invariant
 
@@ -493,6 +508,8 @@ section Traced
 variable {σ V S : Type} (I : Interp σ V) (snap : σ → Int → S)
 
 theorem traced_sim (on : Bool) : Sim (traced I snap on) I Prod.fst where
+  lags := rfl
+  leads := rfl
   check _ _ := rfl
   allFinite := rfl
   close := rfl
@@ -548,25 +565,27 @@ theorem solveT_series_frame (w : World σ) (j : Nat) (hj : pyIndex n t ≠ some 
     · exact ⟨rfl, rfl⟩
     · split
       · exact ⟨rfl, rfl⟩
-      · unfold solveCore
-        split
+      · split
         · exact ⟨rfl, rfl⟩
-        · rcases hbv : I.before o (seed I o t w.user) t with ⟨u2, b⟩
-          cases b with
-          | true => exact ⟨rfl, rfl⟩
-          | false =>
-            simp only
-            generalize loop I o t o.maxIter.toNat 1 u2 (I.check (seed I o t w.user) t) = r
-            cases r with
-            | done u s k => simp only [finish]; exact key (withUser w u) rfl rfl _ _
-            | evalRaised u k =>
-              simp only [finish]
-              split
-              · exact key (withUser w u) rfl rfl _ _
-              · exact ⟨rfl, rfl⟩
-            | nonFinite u k => simp only [finish]; exact key (withUser w u) rfl rfl _ _
-            | afterRaised u k => exact ⟨rfl, rfl⟩
-            | badErrors u k => exact ⟨rfl, rfl⟩
+        · unfold solveCore
+          split
+          · exact ⟨rfl, rfl⟩
+          · rcases hbv : I.before o (seed I o t w.user) t with ⟨u2, b⟩
+            cases b with
+            | true => exact ⟨rfl, rfl⟩
+            | false =>
+              simp only
+              generalize loop I o t o.maxIter.toNat 1 u2 (I.check (seed I o t w.user) t) = r
+              cases r with
+              | done u s k => simp only [finish]; exact key (withUser w u) rfl rfl _ _
+              | evalRaised u k =>
+                simp only [finish]
+                split
+                · exact key (withUser w u) rfl rfl _ _
+                · exact ⟨rfl, rfl⟩
+              | nonFinite u k => simp only [finish]; exact key (withUser w u) rfl rfl _ _
+              | afterRaised u k => exact ⟨rfl, rfl⟩
+              | badErrors u k => exact ⟨rfl, rfl⟩
 
 theorem solveT_lengths (w : World σ) :
     (solveT I o n t w).1.status.length = w.status.length ∧ (solveT I o n t w).1.iters.length = w.iters.length := by
@@ -583,25 +602,27 @@ theorem solveT_lengths (w : World σ) :
     · exact ⟨rfl, rfl⟩
     · split
       · exact ⟨rfl, rfl⟩
-      · unfold solveCore
-        split
+      · split
         · exact ⟨rfl, rfl⟩
-        · rcases hbv : I.before o (seed I o t w.user) t with ⟨u2, b⟩
-          cases b with
-          | true => exact ⟨rfl, rfl⟩
-          | false =>
-            simp only
-            generalize loop I o t o.maxIter.toNat 1 u2 (I.check (seed I o t w.user) t) = r
-            cases r with
-            | done u s k => simp only [finish]; exact key (withUser w u) rfl rfl _ _
-            | evalRaised u k =>
-              simp only [finish]
-              split
-              · exact key (withUser w u) rfl rfl _ _
-              · exact ⟨rfl, rfl⟩
-            | nonFinite u k => simp only [finish]; exact key (withUser w u) rfl rfl _ _
-            | afterRaised u k => exact ⟨rfl, rfl⟩
-            | badErrors u k => exact ⟨rfl, rfl⟩
+        · unfold solveCore
+          split
+          · exact ⟨rfl, rfl⟩
+          · rcases hbv : I.before o (seed I o t w.user) t with ⟨u2, b⟩
+            cases b with
+            | true => exact ⟨rfl, rfl⟩
+            | false =>
+              simp only
+              generalize loop I o t o.maxIter.toNat 1 u2 (I.check (seed I o t w.user) t) = r
+              cases r with
+              | done u s k => simp only [finish]; exact key (withUser w u) rfl rfl _ _
+              | evalRaised u k =>
+                simp only [finish]
+                split
+                · exact key (withUser w u) rfl rfl _ _
+                · exact ⟨rfl, rfl⟩
+              | nonFinite u k => simp only [finish]; exact key (withUser w u) rfl rfl _ _
+              | afterRaised u k => exact ⟨rfl, rfl⟩
+              | badErrors u k => exact ⟨rfl, rfl⟩
 
 /-- The period loop over a concatenation: run the first part; go on (from the world and the accumulated
     results it produced) only if it completed without an exception. -/
